@@ -152,6 +152,7 @@ Theorem resume_proximal_gradient_callable_lam_refuted :
   iterk (n + m) 0 (pg_step proxf gradg gamma lam) x
   <> iterk m 0 (pg_step proxf gradg gamma lam) (iterk n 0 (pg_step proxf gradg gamma lam) x).
 Proof. exact pg_resume_callable_refuted. Qed.
+Print Assumptions resume_proximal_gradient_callable_lam_refuted.
 
 (* ============================ 3. callbacks: exactly one iterate per iteration *)
 
